@@ -312,12 +312,22 @@ class Session:
                 task.exception()
 
 
-def execute(kind, progs, actions):
+def execute(kind, progs, actions, epilogue=False):
     with detloop.running() as loop:
         s = Session(loop, kind, progs)
         try:
             for a in actions:
                 s.act(a)
+            if epilogue:
+                # end every transport suspension until nothing is suspended any more: every started send must finish
+                s.act([A_SETTLE])
+                for _ in range(200):
+                    busy = [t for t in range(len(progs)) if s.status(t) == 2]
+                    if not busy:
+                        break
+                    for t in busy:
+                        s.act([A_OK, t])
+                    s.act([A_SETTLE])
             wire = bytes(s.transport.wire)
             snaps = s.snaps
         finally:
@@ -367,8 +377,11 @@ def oracle(inp):
     that the script itself cancelled or failed inside the transport), each at most once, per-task order kept, every
     packet of a task that returned is there; with the client lock nobody gets BusyResourceError / another error."""
     kind, progs, actions = inp[0], inp[1], inp[2]
-    snaps, wire = execute(kind, progs, actions)
+    snaps, wire = execute(kind, progs, actions, epilogue=True)
     final = snaps[-1][1] if snaps else [0] * len(progs)
+    for t, st in enumerate(final):
+        if st in (1, 2):
+            return f"stranded: task {t} never finishes its send although every transport suspension was ended (lost wake-up)"
     harmed = {a[1] for a in actions if a[0] in (A_FAIL, A_CANCEL)}
     expected = {}
     for t, prog in enumerate(progs):
